@@ -14,7 +14,11 @@ Two further dimensions:
   360, decided in Gaussian-integer arithmetic): the constrained vertex must still carry a unit constraint;
 * histories of length two on ONE mesh object: field A built, run and flagged, then field B (other order / n_smooth /
   element) built, run and flagged on the same mesh; every clause is evaluated after each run, the clauses of the second
-  run under their own subchecks C18.history.*.
+  run under their own subchecks C18.history.*; on meshes with interior edges sharper than the feature threshold also the
+  pairs that differ in the features switch only (on then off, off then on);
+* a configuration switch of the library, mouette.config.display_duplicate_attribute_warning = True (create_attribute then
+  hands back an existing attribute of the same name): every history task is run a second time under it (dupflag_variant,
+  the runner sets and restores the switch), the clauses of the second field under the subchecks C18.history.dupflag.*.
 """
 from __future__ import annotations
 import cmath, itertools, math, os
@@ -22,7 +26,7 @@ from mc.core import Report, call, exc_kind
 
 ID = "C18"
 TECHNIQUE = ("bounded-exhaustive sweep (all triangulations of small point sets and lattice polygons x all configurations within 2 "
-             "deviations x all relabelings x all length-2 field histories on one mesh object) of the real frame-field solvers vs an "
+             "deviations x all relabelings x all length-2 field histories on one mesh object x the duplicate-attribute configuration switch) of the real frame-field solvers vs an "
              "independently assembled dense connection-Laplacian oracle")
 RULE = ("inputs: every triangulation TRI(P) of the listed planar point sets (paraboloid lift z=(x^2+y^2)/16, and unlifted with "
         "the library's flat connection), lifted 3x3 / 3x4 grids, tetrahedron, octahedron, icosahedron, 3x3 and 3x4 tori; every "
@@ -30,7 +34,7 @@ RULE = ("inputs: every triangulation TRI(P) of the listed planar point sets (par
         "configurations: order 1-6 x element x n_smooth {0,1,3} in full, the switches features/use_cotan/cad_correction/"
         "smooth_normals within the deviation bound of the tier; relabelings and face-listing deviations (start rotations, "
         "swaps of adjacent faces) as listed in the bounds; histories: ordered pairs (A, B) of configurations (element x order x "
-        "n_smooth {0,3}, A != B), A built/run/flagged then B built/run/flagged on the same mesh object, all clauses after each; a case = one distinct (labelled and listed mesh, configuration) "
+        "n_smooth {0,3}, A != B), A built/run/flagged then B built/run/flagged on the same mesh object, all clauses after each; on meshes where the features switch is not inert (an interior edge with normals' dot < 0.5) also the 48 pairs differing in features only; every history once more under config.display_duplicate_attribute_warning=True (clauses C18.history.dupflag.*); a case = one distinct (labelled and listed mesh, configuration) "
         "execution of the real solver; non-trivial = the mesh has constrained elements or is closed (always true here)")
 ASSUMPTIONS = [
     "inputs are oriented manifold triangle complexes in general position (exact integer predicate), <= 12 vertices (icosahedron/torus) ",
@@ -40,11 +44,12 @@ ASSUMPTIONS = [
     "eigen-solver start vector (closed surfaces) and ARPACK are seeded from VERIF_SEED; only seed-independent clauses are asserted there (unit modulus, index quantum and sum)",
     "relabeling / face-start invariance is asserted with smoothing switched off and cad_correction off (OSQP's 1e-3 tolerance is not round-off)",
     "histories have length two, one fresh mesh object per pair; the first field is not used again after the second one was built (FeatureEdgeDetector results of successive fields share the mesh's 'corners'/'feature' attributes by design)",
+    "the duplicate-attribute switch is set and restored by the runner around the whole task (mc/runner.py, dupflag variant); each such task verifies on a scratch container that a second create_attribute under one name returns the first attribute (and returns a new one in the regular tasks)",
     "lattice polygons: integer coordinates, no three points collinear (exact), all triangulations by flips from an ear-clipping start; corner turning angles and the 'exactly opposite contributions' relation order*turning = 180 mod 360 are decided in integer arithmetic",
 ]
 BOUNDS = {
-    "quick": "TRI(P) for the 7 point sets with <=6 vertices (30 triangulations), lifted grids 3x3 and 3x4, 5 closed meshes; per mesh: order 1-6 x element x n_smooth {0,1,3} in full with the switches within <=1 deviation (144 configurations) + 24 flat-connection configurations on the planar version; relabelings (n_smooth=0, cad off): all n! for n<=4 (24 cfgs), all 5! on one pentagon triangulation and every transposition on the other 5-vertex meshes (12 cfgs); face-listing deviations <=2 on n<=4, <=1 on n=5 (24 cfgs); lattice polygons trap, trap+1, rect+1, rtri+1, para+1, ell (17 triangulations): the same sweep with the inert features switch left on (108 + 24 flat configurations); histories: 216 ordered pairs (same element: order or n_smooth differs; other element: all order pairs, n_smooth 0) on each of 14 meshes (TRI of the <=5-point sets with interior vertices, grid 3x3, tetrahedron, octahedron, torus 3x3, TRI(trap+1), TRI(rtri+1))",
-    "thorough": "TRI(P) for all 13 point sets up to 8 vertices (387 triangulations), grids, closed meshes; switches within <=2 deviations for n<=6, grids and closed meshes (270 + 48 flat configurations per mesh), <=1 for n=7 (144+24), order x element x n_smooth only for n=8 (36+24); relabelings: all n! for n<=5 (42 cfgs n<=4, 24 cfgs n=5), all 6! on one triangulation of each 6-point set (12 cfgs), every transposition on the other 6-vertex meshes (24 cfgs), on every 3rd 7-vertex and every 8th 8-vertex mesh (12 cfgs) and on the 3x3 grid (24 cfgs); face-listing deviations <=2 for n<=5, <=1 for n=6 and every 6th mesh with n>=7 (24 cfgs); lattice polygons: all 11 sets (91 triangulations), switches within <=2 deviations for n<=6, <=1 for n=7; histories: all 552 ordered pairs of element x order x n_smooth {0,3} on each of 94 meshes (TRI of the <=6-point sets with interior vertices, grid 3x3, 5 closed meshes, TRI of the 7 lattice sets with an interior point)",
+    "quick": "TRI(P) for the 7 point sets with <=6 vertices (30 triangulations), lifted grids 3x3 and 3x4, 5 closed meshes; per mesh: order 1-6 x element x n_smooth {0,1,3} in full with the switches within <=1 deviation (144 configurations) + 24 flat-connection configurations on the planar version; relabelings (n_smooth=0, cad off): all n! for n<=4 (24 cfgs), all 5! on one pentagon triangulation and every transposition on the other 5-vertex meshes (12 cfgs); face-listing deviations <=2 on n<=4, <=1 on n=5 (24 cfgs); lattice polygons trap, trap+1, rect+1, rtri+1, para+1, ell (17 triangulations): the same sweep with the inert features switch left on (108 + 24 flat configurations); histories: 216 ordered pairs (same element: order or n_smooth differs; other element: all order pairs, n_smooth 0) on each of 14 meshes (TRI of the <=5-point sets with interior vertices, grid 3x3, tetrahedron, octahedron, torus 3x3, TRI(trap+1), TRI(rtri+1)) + the 48 features-only pairs (element x order x n_smooth {0,3}, on->off and off->on) on the 3 of them with sharp interior edges; all history tasks a second time with display_duplicate_attribute_warning=True",
+    "thorough": "TRI(P) for all 13 point sets up to 8 vertices (387 triangulations), grids, closed meshes; switches within <=2 deviations for n<=6, grids and closed meshes (270 + 48 flat configurations per mesh), <=1 for n=7 (144+24), order x element x n_smooth only for n=8 (36+24); relabelings: all n! for n<=5 (42 cfgs n<=4, 24 cfgs n=5), all 6! on one triangulation of each 6-point set (12 cfgs), every transposition on the other 6-vertex meshes (24 cfgs), on every 3rd 7-vertex and every 8th 8-vertex mesh (12 cfgs) and on the 3x3 grid (24 cfgs); face-listing deviations <=2 for n<=5, <=1 for n=6 and every 6th mesh with n>=7 (24 cfgs); lattice polygons: all 11 sets (91 triangulations), switches within <=2 deviations for n<=6, <=1 for n=7; histories: all 552 ordered pairs of element x order x n_smooth {0,3} on each of 94 meshes (TRI of the <=6-point sets with interior vertices, grid 3x3, 5 closed meshes, TRI of the 7 lattice sets with an interior point) + the 48 features-only pairs on those with sharp interior edges; all history tasks a second time with display_duplicate_attribute_warning=True",
 }
 
 SEED = int(os.environ.get("VERIF_SEED", "0") or 0)
@@ -142,16 +147,33 @@ def _inv_configs(level):
 
 
 def _hist_configs():
-    """configurations of the history dimension: element x order 1-6 x n_smooth {0,3}, default switches (cad_correction off)"""
-    return [{"el": el, "order": order, "ns": ns, "feat": True, "cot": True, "cad": False, "sn": True, "flat": False}
-            for el in ("faces", "vertices") for order in range(1, 7) for ns in (0, 3)]
+    """configurations of the history dimension: element x order 1-6 x n_smooth {0,3}, default switches (cad_correction off):
+    indices 0-23; the same with the features switch off (border edges only): indices 24-47 (index i + 24 = configuration i
+    with features=False)"""
+    return [{"el": el, "order": order, "ns": ns, "feat": feat, "cot": True, "cad": False, "sn": True, "flat": False}
+            for feat in (True, False) for el in ("faces", "vertices") for order in range(1, 7) for ns in (0, 3)]
+
+
+NHIST = 24
+
+
+def _hist_feature_pairs():
+    """ordered pairs differing in the features switch only (48): on, then off / off, then on, on the same mesh object"""
+    return [[i, i + NHIST] for i in range(NHIST)] + [[i + NHIST, i] for i in range(NHIST)]
+
+
+def _features_not_inert(pts, faces):
+    """some interior edge is sharper than the documented feature threshold (normals' dot product < 0.5, margin 1e-6):
+    the features switch changes the set of constrained elements (decided on the raw point / face lists)"""
+    from mc import c18_lib as L
+    return any(d < 0.5 - 1e-6 for d in L.Geo(pts, [tuple(f) for f in faces]).dihedral_dots().values())
 
 
 def _hist_pairs(tier):
     """ordered pairs (A, B), A != B, of indices into _hist_configs(): field A then field B on the same mesh object.
     quick (216): same element: every pair differing in the order only or in n_smooth only (2 x 72); other element: every
     pair of orders with n_smooth 0 (72).  thorough (552): all ordered pairs."""
-    C = _hist_configs()
+    C = _hist_configs()[:NHIST]
     out = []
     for i, A in enumerate(C):
         for j, B in enumerate(C):
@@ -225,6 +247,9 @@ def tasks(tier):
     for name, p, f in hist:
         for i in range(0, len(pairs), HCH):
             out.append({"kind": "history", "mesh": name, "pts": p, "faces": f, "pairs": pairs[i:i + HCH]})
+        if _features_not_inert(p, f):
+            # the features switch in the history: only where it changes the set of constrained elements
+            out.append({"kind": "history", "mesh": name, "pts": p, "faces": f, "pairs": _hist_feature_pairs(), "features_pairs": True})
     # ---- relabelings: (perms, level of the configuration set)
     CH = 40
     for s in sets:
@@ -342,7 +367,8 @@ def _check(rep: Report, M, name, pts, faces, cfg, want_sing=True, relabel_tag=No
     """One execution of the real code + every clause of the statement that applies. Returns a dict used by the
     invariance clauses (None if the run failed): {'inv': key->complex, 'skip': reason or None}.
     `mesh`: run on this mesh object instead of a fresh one; `hist` = {'before': [configurations already run and flagged
-    on that mesh object], 'cls': suffix of the input class}: the clauses are then reported as C18.history.*"""
+    on that mesh object], 'cls': suffix of the input class, 'sub': subcheck prefix}: the clauses are then reported as
+    C18.history.* (C18.history.dupflag.* when the run is made under config.display_duplicate_attribute_warning = True)"""
     import numpy as np
     from mc import c18_lib as L
     r = _execute(M, pts, faces, cfg, want_sing, mesh)
@@ -358,7 +384,7 @@ def _check(rep: Report, M, name, pts, faces, cfg, want_sing=True, relabel_tag=No
         ctx["run_and_flagged_on_the_same_mesh_object_before"] = hist["before"]
 
     def viol(sub, callee_, kind, icls_, detail):
-        rep.violation(("C18.history." + sub[len("C18."):]) if hist else sub, callee_, kind, icls_, detail)
+        rep.violation((hist.get("sub", "C18.history.") + sub[len("C18."):]) if hist else sub, callee_, kind, icls_, detail)
     rep.case((name, relabel_tag, sorted(cfg.items()), [sorted(c.items()) for c in hist["before"]] if hist else None))
     rep.states += 1
     rep.flag("closed" if geo.closed else "bordered")
@@ -820,27 +846,53 @@ def _listing(task, rep, M):
 
 def _history(task, rep, M):
     """Histories of length two on one mesh object: field A built, run, flagged and checked; then field B built, run,
-    flagged and checked on the SAME mesh object (whatever A left on it: attributes, caches). One fresh mesh per pair."""
+    flagged and checked on the SAME mesh object (whatever A left on it: attributes, caches). One fresh mesh per pair.
+    The same tasks are run a second time by the runner under mouette.config.display_duplicate_attribute_warning = True
+    (dupflag_variant): create_attribute then hands back the attribute an earlier field created under the same name; every
+    clause of the second field (unit modulus, constraints, index quantum and sum, harmonic extension) is evaluated there
+    under the subchecks C18.history.dupflag.*"""
     from mc import families as F
     pts, faces = task["pts"], [tuple(f) for f in task["faces"]]
     C = _hist_configs()
+    dup = bool(M.config.display_duplicate_attribute_warning)
+    tag = "history:dupflag:" if dup else "history:"
+    # coverage fact: what the switch means in this process (second creation under one name on a scratch mesh)
+    probe = F.build_surface(pts, faces).vertices
+    first = probe.create_attribute("c18_probe", float)
+    rep.flag(tag + ("create_attribute_returns_existing" if probe.create_attribute("c18_probe", float) is first
+                    else "create_attribute_returns_new"))
     for ia, ib in task["pairs"]:
         A, B = C[ia], C[ib]
         mesh = F.build_surface(pts, faces)
         ra = _check(rep, M, task["mesh"], pts, faces, A, mesh=mesh)
+        before = {c: set(getattr(mesh, c).attributes) for c in ("vertices", "edges", "faces", "face_corners")}
         rb = _check(rep, M, task["mesh"], pts, faces, B, mesh=mesh,
-                    hist={"before": [A], "cls": ":2nd_field_on_mesh_after_" + A["el"]})
-        rep.flag("history:%s_after_%s" % (B["el"], A["el"]))
+                    hist={"before": [A], "cls": ":2nd_field_on_mesh_after_" + A["el"] + _feat_cls(A, B),
+                          "sub": "C18.history.dupflag." if dup else "C18.history."})
+        rep.flag(tag + "%s_after_%s" % (B["el"], A["el"]))
+        if any(before.values()):
+            rep.flag(tag + "first_field_left_attributes_on_mesh")
         if A["order"] != B["order"]:
-            rep.flag("history:other_order")
+            rep.flag(tag + "other_order")
         if A["ns"] != B["ns"]:
-            rep.flag("history:other_n_smooth")
+            rep.flag(tag + "other_n_smooth")
+        if A["feat"] != B["feat"]:
+            rep.flag(tag + "features_%s:%s" % ("on_then_off" if A["feat"] else "off_then_on", B["el"]))
+        if ra and rb and rb["singuls"] is not None:
+            rep.flag(tag + "index_quantum_and_sum_checked_on_2nd_field_after_" + A["el"])
         if ra and rb and ra["singuls"] is not None and rb["singuls"] is not None:
             # vacuity guard of the history clause: some vertex flagged for A is not flagged for B (a left-over would show)
             left = [v for v, x in ra["singuls"].items() if x != 0 and v not in rb["singuls"]]
             rep.outcome("history_singular_vertices", "B_covers_A" if not left else "A_has_vertices_B_has_not")
     if len(rep.samples) < 1:
-        rep.sample({"mesh": task["mesh"], "faces": task["faces"], "history": [C[task["pairs"][0][0]], C[task["pairs"][0][1]]]})
+        rep.sample({"mesh": task["mesh"], "faces": task["faces"], "history": [C[task["pairs"][0][0]], C[task["pairs"][0][1]]],
+                    "display_duplicate_attribute_warning": dup})
+
+
+def _feat_cls(A, B):
+    if A["feat"] == B["feat"]:
+        return ""
+    return ":features_on_then_off" if A["feat"] else ":features_off_then_on"
 
 
 def run_task(task, rep: Report):
@@ -875,7 +927,15 @@ def finish(tier, rep: Report):
             "lattice_corner_turning:45", "lattice_corner_turning:90", "lattice_corner_turning:135", "lattice_corner_turning:-90",
             "opposed_corner:guarded:order2", "opposed_corner:guarded:order4", "opposed_corner:guarded:order6",
             "history:faces_after_faces", "history:faces_after_vertices", "history:vertices_after_faces",
-            "history:vertices_after_vertices", "history:other_order", "history:other_n_smooth"]
+            "history:vertices_after_vertices", "history:other_order", "history:other_n_smooth",
+            "history:first_field_left_attributes_on_mesh", "history:create_attribute_returns_new",
+            "history:features_on_then_off:faces", "history:features_off_then_on:faces",
+            "history:features_on_then_off:vertices", "history:features_off_then_on:vertices",
+            "history:index_quantum_and_sum_checked_on_2nd_field_after_faces",
+            "history:index_quantum_and_sum_checked_on_2nd_field_after_vertices"]
+    # the same histories under config.display_duplicate_attribute_warning = True (dupflag_variant)
+    need += [f.replace("history:", "history:dupflag:", 1) for f in need if f.startswith("history:") and f != "history:create_attribute_returns_new"]
+    need.append("history:dupflag:create_attribute_returns_existing")
     for f in need:
         if f not in rep.flags:
             fails.append("coverage flag missing: " + f)
@@ -893,6 +953,10 @@ def finish(tier, rep: Report):
         fails.append("border-corner constraints were never all of unit modulus")
     if not rep.outcomes.get("opposed_corner_constraint"):
         fails.append("no border corner with exactly opposite edge contributions reached the constraint clause")
+    if "history:dupflag:create_attribute_returns_new" in rep.flags or "history:create_attribute_returns_existing" in rep.flags:
+        fails.append("history: the duplicate-attribute switch did not have its documented meaning in some task (or was left switched by one)")
+    if not rep.counters.get("duplicate_attribute_flag:tasks"):
+        fails.append("no history task was run under config.display_duplicate_attribute_warning = True")
     return fails
 
 
@@ -900,3 +964,9 @@ def warm_variant(task, tier):
     """Tasks that are also run on meshes whose attribute blackboard is already filled with (valid) persistent attributes
     (mc/families.py WARM; the runner appends ':warm_attribute_blackboard' to the input class of anything found there)."""
     return bool(task.get("kind") == "sweep")
+
+
+def dupflag_variant(task, tier):
+    """History tasks are run once more with mouette.config.display_duplicate_attribute_warning = True (the runner sets and
+    restores the switch): create_attribute then hands back whatever attribute of the same name an earlier field left."""
+    return bool(task.get("kind") == "history")
